@@ -31,11 +31,15 @@ func main() {
 			r.Violate("worker-crashed", "a worker process died (fatal runtime error or kill)", c, nil, nil)
 		}
 		cov := schedx.Coverage(r, scenarios, map[string]any{
+			"fidelity_evaluations": r.P.Counters["fid_evaluations"], "fidelity_nontrivial": r.P.Counters["fid_nontrivial"],
 			"jar_depth": jarDepth, "jar_alphabet": fmt.Sprint(jarAlpha), "jar_histories": r.P.Counters["jar_histories"], "jar_unreproduced": r.P.Counters["jar_unreproduced"],
 			"rule": "Part C: all interleavings (within the stated preemption / select-choice bounds) of caller threads, execFunc's worker goroutine, response arrival, transport failure and context cancellation at the scheduling points done-flag CAS/Swap, pool Get/Put (errChan, Response, Request), channel send/receive/select readiness, client mutex operations, and the round-tripper seam; oracle: every (resp, nil) carries echo(id) of its own request, errors are ErrTimeoutOrCancel only after a cancel and the injected transport error only for the failed request, no blocked goroutine, pooled response clean in the probe phase",
 		})
 		r.Finish(core.Evidence{Level: "model_checking", Exhaustive: true, Coverage: cov,
 			Assumptions: []string{"fasthttp's connection layer is replaced by a round-tripper; timeouts are modelled as context cancellation (same <-ctx.Done() branch)", "sequential consistency; scheduling points at sync/atomic/pool/channel operations of client/{core,request,response,client}.go"}})
+	}
+	if r.Worker == 0 {
+		runFidelity(r) // map orders are process-global: part A runs in one worker
 	}
 	enumerateJar(r, jarDepth, jarAlpha)
 	schedx.RunAll(r, scenarios, 0)
